@@ -106,6 +106,12 @@ theorem schedPass_gstep {wf : Wf} {s : St} (hwf : wf.WF) (hrs : RepeatSafe wf)
     · left; simpa [hj] using h
   · left; obtain ⟨k, hk⟩ := launch_comp wf r.2 r.1 j; rw [hk]; split <;> simp
 
+theorem advance_gstep {wf : Wf} {s : St} (hG : Good wf s) : GStep wf s (advance wf s) := by
+  unfold advance
+  split
+  · exact ⟨hG.stop.symm, fun _ h => h, fun _ h => Or.inl h, fun _ => Or.inl rfl⟩
+  · exact GStep.of_eq rfl rfl
+
 theorem step_inv2 {wf : Wf} {s : St} (hwf : wf.WF) (hrs : RepeatSafe wf) (hI : Inv wf none s)
     (h2 : Inv2 wf s) (op : Op) (hk : op ≠ .kill) : Inv2 wf (step wf s op) := by
   rcases h2 with ⟨c, hc, hsp, hct⟩ | ⟨hG, hN⟩
@@ -118,6 +124,7 @@ theorem step_inv2 {wf : Wf} {s : St} (hwf : wf.WF) (hrs : RepeatSafe wf) (hI : I
       | pm c => exact deliverPM_gstep c hI hG
       | kill => exact absurd rfl hk
       | tick c => exact GStep.of_eq rfl rfl
+      | next => exact advance_gstep hG
     exact this.inv2 hwf hG hN
 
 theorem run_from_inv2 {wf : Wf} (hwf : wf.WF) (hrs : RepeatSafe wf) (ops : List Op) :
